@@ -290,6 +290,8 @@ class MuxServer(BaseProtoServer):
         self.pings.append({'conn': conn.id, 'tag': tag, 'vt': self.env.now})
         act = self.policy.ping(self, conn, tag) if hasattr(self.policy, 'ping') else {'delay': 0.0005}
         if act and not act.get('drop'):
+          for fr_ in act.get('preface', ()):      # frames of the peer's own that go out ahead of the answer
+            conn.write(fr_, act.get('delay', 0.0), None, 'preface')
           conn.write(mc.rping(tag), act.get('delay', 0.0), None, 'rping')
       elif typ == mc.T_DISCARDED:
         rec = {'conn': conn.id, 'discard_tag': d['discard_tag'], 'why': d['why'], 'vt': self.env.now,
